@@ -132,6 +132,10 @@ def handle (ts : List String) : String :=
         match sc.measureOf o with
         | some mi => fmtOpt fmtSTime (sc.encode mi o d)
         | none => "-") ns
+  | "quart" :: rest =>
+    -- the true position in quarters (from the point where the beat count is 0) the position theorems refer to
+    orErr <| (run (do let sc ← pScore; let tl ← list int; pure (sc, tl)) rest).map
+      fun (sc, tl) => fmtList (fun t => fmtRat (sc.quarters t)) tl
   | "sig" :: rest =>
     orErr <| (run (do let sc ← pScore; let tl ← list int; pure (sc, tl)) rest).map
       fun (sc, tl) => fmtList (fun (k, l) =>
